@@ -288,9 +288,12 @@ class Frames(Suite):
             if sum(len(p.get("data") or "") for p in pkts) > 100000 and 1 in frag:
                 frag = [4096, 0]
             op = {"op": "frames", "pkts": pkts, "frag": frag}
-            if rng.random() < 0.1:
+            if rng.random() < 0.15:
                 # a frame header that announces more bytes than follow (truncated / hostile stream)
-                op["extra"] = hx(rng.choice([b"\x10\x00\x00\x00", b"\x04\x00\x00\x00abc", b"\x00\x10\x00\x00x"]))
+                # ... also with more than one pooled buffer (32 KiB) of bytes actually delivered behind the bogus length
+                op["extra"] = hx(rng.choice([b"\x10\x00\x00\x00", b"\x04\x00\x00\x00abc", b"\x00\x10\x00\x00x",
+                                             b"\x10\x00\x00\x00" + b"z" * 40000, b"\x04\x00\x00\x00" + b"q" * 32768,
+                                             b"\x7f\xff\xff\xff" + b"w" * 33000]))
             ops.append(op)
         return ops
 
